@@ -7,6 +7,7 @@ white-box include of patterns/allpairs.c) run on the same generated arrays; resu
 extracted trace acceptor and every pair must have been processed exactly once."""
 import json
 import os
+import time
 from .. import core
 
 OPS = ["sum", "prod", "max", "min"]
@@ -16,6 +17,7 @@ PATNAMES = {0: "random", 1: "sorted", 2: "reversed", 3: "constant", 4: "two-valu
 SAFE_SORT_PATS = [0, 0, 1, 2, 5, 6, 7]           # patterns that cannot contain > cutoff equal elements
 RISKY_SORT_PATS = [3, 4, 9]                      # constant / two values / mostly the maximum
 KNOWN_SIG = "qsort-constant-above-cutoff"
+AP_HANG_SIG = "allpairs-hang-multiworker-shepherds"
 LOOP_CHUNK = 10000
 FUEL, WFUEL = 120, 64
 
@@ -28,7 +30,7 @@ def lengths_for(w):
     return sorted(s)
 
 
-def run_batch(exe, env, lines, per_case_timeout=150):
+def run_batch(exe, env, lines, per_case_timeout=150, watchdog=None):
     """run the harness over `lines`; a crash or watchdog ends the process: the case at that position gets
     'CRASH rc'/'TIMEOUT' and the rest is run in a fresh process.  returns (header, [result line per input line])"""
     results = []
@@ -38,7 +40,10 @@ def run_batch(exe, env, lines, per_case_timeout=150):
     while pos < len(lines) and guard < 40:
         guard += 1
         chunk = lines[pos:]
-        rc, out, err = core.run_lines(exe, chunk + ["Q"], timeout=per_case_timeout + 2 * len(chunk), env=env)
+        e2 = dict(env)
+        if watchdog:
+            e2["C13_AP_WATCHDOG"] = str(watchdog)
+        rc, out, err = core.run_lines(exe, chunk + ["Q"], timeout=per_case_timeout + 2 * len(chunk), env=e2)
         if not out or not out[0].startswith("H "):
             raise core.BuildError("c13 harness did not start: rc=%s %s" % (rc, err[-400:]))
         header = out[0].split()
@@ -62,16 +67,17 @@ def red_cases(rng, w, quick):
     """(impl flavour, model kind, op, ty, pat, n, seed, start, stop, checkfeb)"""
     cases = []
     for n in lengths_for(w):
-        big = n >= 9999
         # qt_<ty>_<op>: PARALLEL_FUNC -> qt_loopaccum_balance_inner(0, n, SYNCVAR_T)
-        for ty in TYS:
-            for op in OPS:
-                if quick and big and rng.chance(1, 2):
-                    continue
-                pat = rng.choice([0, 0, 3, 4, 5, 6, 7, 1, 2])
-                cases.append(("api", "la", op, ty, pat, n, rng.next() >> 1, 0, n, 1 if rng.chance(1, 5) else 0))
+        combos = [(ty, op) for ty in TYS for op in OPS]
+        if quick:       # every syncvar-flavour call costs ~0.1 s of wake-up latency on multi-worker configurations
+            combos = rng.shuffle(combos)[:4 if w > 1 else 12]
+        for (ty, op) in combos:
+            pat = rng.choice([0, 0, 3, 4, 5, 6, 7, 1, 2])
+            cases.append(("api", "la", op, ty, pat, n, rng.next() >> 1, 0, n, 1 if rng.chance(1, 5) else 0))
         # explicit flavours over a sub-range [start, start+n) of a longer array
         for fl in ("sv", "dc", "sinc", "plain"):
+            if quick and w > 1 and fl != "dc" and n not in (1, 2, w - 1, w, w + 1) and rng.chance(2, 3):
+                continue
             for _ in range(1 if quick else 3):
                 ty, op = rng.choice(TYS), rng.choice(OPS)
                 if fl == "sinc" and ty == "d" and op in ("sum", "prod"):
@@ -182,10 +188,17 @@ def run(ctx):
     hist = {}
     model_cache = {}
 
+    prof = {}
+
+    def tick(k, t0):
+        prof[k] = round(prof.get(k, 0) + time.time() - t0, 2)
+
     def model(cmds):
         need = [c for c in dict.fromkeys(cmds) if c not in model_cache]
         if need:
+            t0 = time.time()
             rc, out, err = core.run_lines(drv, need, timeout=1500)
+            tick("model:" + need[0].split()[0], t0)
             if len(out) != len(need):
                 raise core.BuildError("c13 model driver failed: rc=%s, %d of %d answers; %s" % (rc, len(out), len(need), err[-300:]))
             for c, o in zip(need, out):
@@ -197,6 +210,8 @@ def run(ctx):
     qreds = [tuple(c) for c in corpus.get("qutil_red", [])] + qutil_red_cases(rng.fork(), quick)
     aps = [tuple(c) for c in corpus.get("ap", [])] + ap_cases(rng.fork(), quick)
     hang_budget = 3 if quick else 8
+    ap_probe_budget = 1 if quick else 3
+    ap_hangs = []
     hangs_seen = []          # known-class cases where model (OutOfFuel) and implementation (watchdog) agree
 
     for ci, (ns, nw) in enumerate(configs):
@@ -206,7 +221,9 @@ def run(ctx):
         reds = [tuple(c) for c in corpus.get("red", [])] + red_cases(rng.fork(), w, quick) + (qreds if ci < (2 if quick else 99) or ci == 3 else qreds[::7])
         ilines = ["red %s %s %s %d %d %d %d %d %d" % (fl, op, ty, pat, n, seed, start, stop, feb)
                   for (fl, kind, op, ty, pat, n, seed, start, stop, feb) in reds]
+        t0 = time.time()
         header, iout = run_batch(exe, env, ilines)
+        tick("impl:red", t0)
         if int(header[1]) != ns or int(header[2]) != w:
             raise core.BuildError("runtime reports %s shepherds / %s workers, asked %dx%d" % (header[1], header[2], ns, nw))
         cacheline = int(header[3])
@@ -233,13 +250,20 @@ def run(ctx):
             if len(samples) < 3 and n > 3 and min(w, stop - start) >= 2:
                 samples.append(dict(d, impl=p[1], model=mo.split()[1]))
         # ------------------------------------------------------------ sorts
-        scs = sorts if (not quick or ci in (1, 3)) else [c for c in sorts if c[2] <= 10001 or c[0] == "qt"][::2]
+        if not quick or ci == 3:
+            scs = sorts
+        elif ci == 1:
+            scs = sorts[:len(corpus.get("sort", []))] + sorts[len(corpus.get("sort", []))::2]
+        else:
+            scs = [c for c in sorts if c[2] <= 10001 or c[0] == "qt"][ci % 4::4]
         mo_s = model([model_sort_cmd(c, ns, cacheline) for c in scs])
         term = [(c, mo) for c, mo in zip(scs, mo_s) if mo != "s outoffuel"]
         for c, mo in zip(scs, mo_s):
             if mo == "s outoffuel":      # a generated "safe" case the model says diverges: treat like the risky ones
                 risky.append(c)
+        t0 = time.time()
         header, iout = run_batch(exe, env, ["sort %s %d %d %d 60" % c for c, _ in term])
+        tick("impl:sort", t0)
         for (c, mo), io in zip(term, iout):
             evals += 1
             d = desc_sort(c, ns, nw)
@@ -289,6 +313,24 @@ def run(ctx):
                         if p[3] != "1" or p[4] != "1":
                             ofail.append((None, "%s left the array unsorted or with different elements" % d["function"], d))
         # ------------------------------------------------------------ allpairs
+        if ns >= 2 and nw >= 2:
+            # known finding (open): with >= 2 shepherds and >= 2 workers per shepherd qt_allpairs intermittently never
+            # returns (scheduler starvation of a yield-waiting task).  Probe it with a short watchdog; the regular
+            # correspondence runs on the other configurations.
+            if ap_probe_budget > 0:
+                ap_probe_budget -= 1
+                for attempt in range(3):
+                    evals += 1
+                    _, io = run_batch(exe, env, ["ap 20 30 1024 1 %d" % attempt], per_case_timeout=8, watchdog=4)
+                    if io[0] == "TIMEOUT":
+                        ap_hangs.append({"function": "qt_allpairs", "array1": {"count": 20}, "array2": {"count": 30}, "unit_size": 1024,
+                                         "seg_pages": 1, "distribution": "FIXED_HASH", "config": [ns, nw],
+                                         "harness_command": "ap 20 30 1024 1 %d" % attempt})
+                        break
+                    p = io[0].split()
+                    if p[0] != "a" or " bad=0 " not in io[0] or " active=0 " not in io[0]:
+                        ofail.append((None, "qt_allpairs: " + io[0][:120], {"config": [ns, nw], "harness_command": "ap 20 30 1024 1 %d" % attempt}))
+            continue
         header, iout = run_batch(exe, env, ["ap %d %d %d %d %d" % c for c in aps])
         acmds = []
         for c, io in zip(aps, iout):
@@ -325,12 +367,13 @@ def run(ctx):
             if kv["overflow"] != "0":
                 ctx.notes.append("allpairs event log overflow on %s" % (c,))
     # ---------------------------------------------------------------- verdict
-    ctx.cov.update(evaluations=evals, distinct_nontrivial=len(nontrivial), samples=samples,
+    prof["total_before_verdict"] = round(time.time() - ctx.t0, 1)
+    ctx.cov.update(phase_seconds=prof, evaluations=evals, distinct_nontrivial=len(nontrivial), samples=samples,
                    rule="non-trivial = reduction with >= 2 worker partials or >= 2 qutil chunks; quicksort above the parallel cutoff; "
                         "allpairs with >= 2 work units.  lengths {1,2,3,w-1,w,w+1,9,10,11,9999,10000,10001,20001,20002,40001,...} x patterns "
                         "(random, sorted, reversed, constant, two values, extremes, 16 values) x types (aligned_t, saligned_t, double) x operators",
                    traces_validated_against_impl=evals, input_distribution=hist, configs=configs,
-                   correspondence_mismatches=len(mism), known_class_hangs_reproduced=len(hangs_seen),
+                   correspondence_mismatches=len(mism), known_class_hangs_reproduced=len(hangs_seen), allpairs_hangs_reproduced=len(ap_hangs),
                    refuted_on_current_tree=["qsort_const_refuted"])
     ctx.assumptions += ["the sort used below the parallel cutoff (libc qsort, drf_qsort_dbl/_algt) is a correct sort (Section hypothesis; "
                         "compared with the real code on every run)",
@@ -339,6 +382,9 @@ def run(ctx):
     broken = bool(mism) or not pr["ok"]
     unknown = [(w_, c) for (s, w_, c) in ofail if s is None]
     if not broken:
+        if ap_hangs:
+            ctx.violation(AP_HANG_SIG, "qt_allpairs did not return within the watchdog on a configuration with >= 2 shepherds and >= 2 workers "
+                          "per shepherd (all pairs processed, generator never finishes)", ap_hangs[0])
         if hangs_seen:
             ctx.violation(KNOWN_SIG, "parallel quicksort does not terminate: median-of-three pivot equals the maximum of a segment longer "
                           "than the cutoff (model: OutOfFuel; implementation: no return within the watchdog)", hangs_seen[0])
